@@ -237,6 +237,19 @@ def formatterSubstitute (T : Tbl) (X : List (Nat × PStr)) (e : RegEntry) (paren
     | some t => if e.cdata.contains t then s else applyFn T X e.fn s
     | none => applyFn T X e.fn s
 
+/-- `Formatter._default(language, value, "cdata_containing_tags")` (formatter.py:66-77): an explicit value — an empty
+    collection included — is kept (`is not None`, not truthiness); `None` means no tag at all for XML and
+    `HTML_DEFAULTS["cdata_containing_tags"]` otherwise. -/
+def defaultCdata (htmlDefaults : List PStr) (xml : Bool) (value : Option (List PStr)) : List PStr :=
+  match value with
+  | some v => v
+  | none => if xml then [] else htmlDefaults
+
+/-- `Formatter(language, entity_substitution=fn, cdata_containing_tags=arg)` (formatter.py:79-136), as far as
+    `substitute` looks at it. -/
+def mkFormatter (htmlDefaults : List PStr) (xml : Bool) (fn : Nat) (cdataArg : Option (List PStr)) : RegEntry :=
+  { name := [], named := false, fn := fn, cdata := defaultCdata htmlDefaults xml cdataArg }
+
 def findFormatter (reg : List RegEntry) (named : Bool) (name : PStr) : Option RegEntry :=
   reg.find? fun e => e.named == named && e.name == name
 
